@@ -17,8 +17,8 @@ A4Com == Prop1({1, 2}) \cup End({3, 4}, {1}) \cup
 A4ComGenuine == Prop1({1, 2}) \cup End({3, 4}, {1}) \cup
          Com({2, 3}, {1, 2}, {<<{}, {}>>, <<{4}, {}>>, <<{1, 4}, {}>>})
 \* N = 7, C = 2 (thresholds: 3 endorsers; 4 signers in commit messages; 5 endorsers on the fallback path)
-A7Mix == Prop1({1, 2}) \cup End({3, 4, 5}, {1}) \cup End({3, 6}, {2}) \cup
-         Com({5, 6, 7}, {1}, {<<{}, {}>>, <<{3, 4}, {}>>, <<{3}, {}>>, <<{3}, {4}>>}) \cup Com({7}, {2}, {<<{}, {}>>})
-A7Genuine == Prop1({1, 2}) \cup End({3, 4, 5}, {1}) \cup End({3, 6}, {2}) \cup
-         Com({5, 6, 7}, {1}, {<<{}, {}>>, <<{3, 4}, {}>>, <<{3}, {}>>}) \cup Com({7}, {2}, {<<{}, {}>>})
+A7Mix == Prop1({1, 2}) \cup End({3, 4}, {1}) \cup End({3}, {2}) \cup
+         Com({5, 6}, {1}, {<<{}, {}>>, <<{3, 4}, {}>>, <<{3}, {4}>>}) \cup Com({7}, {1}, {<<{}, {}>>})
+A7Genuine == Prop1({1, 2}) \cup End({3, 4}, {1}) \cup End({3}, {2}) \cup
+         Com({5, 6}, {1}, {<<{}, {}>>, <<{3, 4}, {}>>, <<{3}, {}>>}) \cup Com({7}, {1}, {<<{}, {}>>})
 =============================================================================
